@@ -5,6 +5,7 @@ package harness
 import (
 	"fmt"
 	"os"
+	"os/exec"
 	"path/filepath"
 	"runtime"
 	"sort"
@@ -43,6 +44,8 @@ type C16Case struct {
 	SlowOutUs int `json:"slow_out_us,omitempty"`
 	// Busy: per device, how long (ms) the reader of its MIDI output is busy when its event stream ends (0 = reads all the time)
 	Busy []int `json:"busy,omitempty"`
+	// Logs: the devices run with their logging switched on (the application's default)
+	Logs bool `json:"logs,omitempty"`
 }
 
 var raceLogOffsets = map[string]int64{}
@@ -127,6 +130,10 @@ func (c *C16Case) busyFor(i int) int {
 }
 
 func checkC16(c C16Case) (nontrivial bool, v *Violation) {
+	ledDeviceNoLogs = !c.Logs
+	defer func() { ledDeviceNoLogs = true }()
+	classifyIf(c.Logs, "devices with logging on")
+	classifyIf(len(c.D.Exit) > 0, "worlds with an exit sequence")
 	n := len(c.Hist)
 	events := map[int]string{}
 	var ctrls []OrgbController
@@ -429,6 +436,15 @@ func genC16(t *rapid.T) C16Case {
 		m.Axes = []AxisDef{{Code: 0, Type: "cc", CC: intp(20), Min: -128, Max: 127},
 			{Code: 1, Type: "cc", CC: intp(21), CCNeg: intp(22), Min: 0, Max: 255, Center: boolp(true), Deadzone: floatp(0.05)}}
 	}
+	// half of the worlds have an exit sequence (one or two of the mapped keys), a quarter run with logging on
+	if h0 := newHistState(c.D); rapid.Bool().Draw(t, "hasExit") {
+		cand := append(append([]uint16{}, h0.noteKeys...), h0.actKeys...)
+		perm := rapid.Permutation(indices(len(cand))).Draw(t, "exitKeys")
+		for i := 0; i < len(perm) && i < rapid.IntRange(1, 2).Draw(t, "exitLen"); i++ {
+			c.D.Exit = append(c.D.Exit, cand[perm[i]]&^(twinBit|nodeBit))
+		}
+	}
+	c.Logs = rapid.IntRange(0, 3).Draw(t, "logs") == 0
 	n := rapid.IntRange(1, 4).Draw(t, "devices")
 	for i := 0; i < n; i++ {
 		h := newHistState(c.D)
@@ -446,6 +462,14 @@ func genC16(t *rapid.T) C16Case {
 			k := h.noteKeys[rapid.IntRange(0, len(h.noteKeys)-1).Draw(t, "heldKey")]
 			if !h.down[k] {
 				h.toggle(k)
+			}
+		}
+		// the way a session really ends: the exit sequence is pressed (the application then shuts down: the stream ends)
+		if len(c.D.Exit) > 0 && rapid.IntRange(0, 2).Draw(t, "endWithExit") == 0 {
+			for _, k := range c.D.Exit {
+				if !h.down[k] {
+					h.emitKey(k, 1)
+				}
 			}
 		}
 		var hs []LedStep
@@ -628,4 +652,111 @@ func genC16Stall(t *rapid.T) C16StallCase {
 func TestC16Stall(t *testing.T) {
 	requireMount(t)
 	ReplayOrRapid(t, NewRun(t, "C16"), checkC16Stall, genC16Stall)
+}
+
+// ---------------------------------------------------------------- C16, the process does not run for a while
+//
+// TestC16Paused: "all timings" includes the one in which the whole process stands still for seconds (Ctrl-Z / fg, a
+// paused virtual machine, a debugger, a machine that is swapping): right after a device has been attached the test process
+// stops itself (SIGSTOP, continued by a helper after 5.2-6.5 s) - longer than the LED goroutine's budget for connecting to
+// the OpenRGB server. Afterwards the device has to play on, end promptly when its stream ends, and leave nothing behind;
+// above all the process has to be still there.
+type C16PausedCase struct {
+	D        *Desc    `json:"desc"`
+	LEDs     []string `json:"leds"`
+	AfterMs  int      `json:"after_ms"` // the pause begins this long after ProcessEvents was started
+	PauseMs  int      `json:"pause_ms"`
+	Server   bool     `json:"server"` // an OpenRGB server is reachable
+	EndAfter int      `json:"end_after_ms"`
+}
+
+func checkC16Paused(c C16PausedCase) (nontrivial bool, v *Violation) {
+	if c.PauseMs == 0 { // (corpus cases of the other C16 parts land here as an empty case)
+		return false, nil
+	}
+	if err := BuildHidrawFixture(os.Getenv("VERIF_HIDRAW_FIXTURE"), map[int]string{0: "event5"}); err != nil {
+		return false, violation("C16", "harness", "", "fixture: %v", err)
+	}
+	port := 1 // nothing listens there
+	if c.Server {
+		srv, err := NewOrgbServer([]OrgbController{{Name: "Generic Keyboard", Type: 5, Location: "HID: /dev/hidraw0", LEDs: c.LEDs}})
+		if err != nil {
+			return false, violation("C16", "harness", "", "fake OpenRGB server: %v", err)
+		}
+		defer srv.Close()
+		port = srv.Port
+	}
+	cfg, _, pv := parseDesc("C16", c.D)
+	if pv != nil {
+		return false, pv
+	}
+	curRun.Inflight(c)
+	defer curRun.InflightDone()
+	before := deviceGoroutines()
+	ld := startLedDevice(config.DeviceConfig{ConfigFile: "verif.toml", ConfigType: "user", Config: cfg}, c.D, "event5", 0, port, make(chan midi.Event))
+	time.Sleep(time.Duration(c.AfterMs) * time.Millisecond)
+	// stop this process; a helper continues it
+	helper := exec.Command("sh", "-c", fmt.Sprintf("kill -STOP %d; sleep %d.%03d; kill -CONT %d", os.Getpid(), c.PauseMs/1000, c.PauseMs%1000, os.Getpid()))
+	t0 := time.Now()
+	if err := helper.Start(); err != nil {
+		close(ld.in)
+		return false, violation("C16", "harness", "", "cannot start the helper: %v", err)
+	}
+	_ = helper.Wait()
+	paused := time.Since(t0)
+	classifyIf(paused > 5*time.Second, "process stood still for more than 5 s right after a device was attached")
+	time.Sleep(time.Duration(c.EndAfter) * time.Millisecond)
+	// a key stroke, then the stream ends
+	h := newHistState(c.D)
+	if len(h.noteKeys) > 0 {
+		k := h.noteKeys[0] &^ (twinBit | nodeBit)
+		for _, val := range []int32{1, 0} {
+			if err := ld.key(k, val); err != nil {
+				return true, violation("C16", "stuck", "after-pause", "the device does not take key events after the process had stood still for %v: %v", paused, err)
+			}
+		}
+	}
+	tEnd := time.Now()
+	close(ld.in)
+	select {
+	case p := <-ld.done:
+		if p != "" {
+			return true, violation("C16", "panic", "after-pause", "device panicked: %s", p)
+		}
+	case <-time.After(15 * time.Second):
+		return true, violation("C16", "no-prompt-termination", "after-pause", "ProcessEvents had not returned 15 s after the event stream ended (the process had stood still for %v right after the device was attached)\n%s", paused, firstLines(allStacks(), 100))
+	}
+	if d := time.Since(tEnd); d > 3*time.Second {
+		return true, violation("C16", "no-prompt-termination", "after-pause", "ProcessEvents needed %v to return after the event stream ended", d)
+	}
+	deadline := time.Now().Add(3 * time.Second)
+	for deviceGoroutines() > before && time.Now().Before(deadline) {
+		time.Sleep(20 * time.Millisecond)
+	}
+	if n := deviceGoroutines(); n > before {
+		return true, violation("C16", "background-activity-left", "after-pause", "%d goroutine(s) of the device package are still alive 3 s after ProcessEvents returned\n%s", n-before, firstLines(allStacks(), 100))
+	}
+	return paused > 5*time.Second, nil
+}
+
+// deviceGoroutines counts the goroutines whose stack is inside the device package.
+func deviceGoroutines() int {
+	n := 0
+	for _, g := range strings.Split(allStacks(), "\n\n") {
+		if strings.Contains(g, "internal/pkg/midi/device.") {
+			n++
+		}
+	}
+	return n
+}
+
+func genC16Paused(t *rapid.T) C16PausedCase {
+	base := genC17(t)
+	return C16PausedCase{D: base.D, LEDs: base.LEDs, AfterMs: rapid.SampledFrom([]int{0, 0, 50, 120, 200, 400}).Draw(t, "afterMs"),
+		PauseMs: rapid.IntRange(5200, 6500).Draw(t, "pauseMs"), Server: rapid.Bool().Draw(t, "server"), EndAfter: rapid.SampledFrom([]int{0, 100, 300, 700}).Draw(t, "endAfter")}
+}
+
+func TestC16Paused(t *testing.T) {
+	requireMount(t)
+	ReplayOrRapid(t, NewRun(t, "C16"), checkC16Paused, genC16Paused)
 }
